@@ -540,17 +540,19 @@ def undo_alias_spec(R, ast):
 
 
 def alias_prefix_of_own_module(R, ast):
-  """Known finding c12-alias-prefix-of-own-module: a module alias whose name is a proper dotted prefix of the module it
-  stands for (`import foo.bar as foo`) and a LateType below that name: undoing the alias is not idempotent
-  (`foo.X` -> `foo.bar.X` -> `foo.bar.bar.X`), so re-encoding the decoded AST gives other bytes."""
+  """Known finding c12-alias-prefix-of-own-module (the complement of the model's `noChain`, restricted to names that
+  are really rewritten): a module alias `a -> m` where some alias name of the unit (possibly `a` itself:
+  `import foo.bar as foo`) is a dotted prefix of `m`, and a LateType below `a`.  Undoing the aliases is then not
+  idempotent (`foo.X` -> `foo.bar.X` -> `foo.bar.bar.X`), so re-encoding the decoded AST gives other bytes."""
   p = R.pytd
-  pre = []
-  for a in ast.aliases:
-    if isinstance(a.type, p.Module):
-      n = a.name[len(ast.name) + 1:] if a.name.startswith(ast.name + ".") else a.name
-      if a.type.module_name.startswith(n + "."):
-        pre.append(n)
-  return any(name == q or name.startswith(q + ".") for q in pre for name in late_names(R, ast) if "." in name)
+  al = []
+  for x in ast.aliases:
+    if isinstance(x.type, p.Module):
+      n = x.name[len(ast.name) + 1:] if x.name.startswith(ast.name + ".") else x.name
+      al.append((n.split("."), x.type.module_name.split(".")))
+  chained = [a_ for a_, m in al if any(m[:len(b_)] == b_ for b_, _ in al)]
+  names = [nm.split(".") for nm in late_names(R, ast) if "." in nm]
+  return any(nm[:len(a_)] == a_ and len(nm) > len(a_) for a_ in chained for nm in names)
 
 
 def ast_oracle(R, ast):
@@ -558,6 +560,12 @@ def ast_oracle(R, ast):
   pointers cleared, Serialize of the decoded AST byte-identical, canonical ordering idempotent."""
   pu, su = R.pickle_utils, R.serialize_ast
   try:
+    # Serialize clears ClassType.cls pointers of `ast` IN PLACE and orders canonically afterwards; the reference below
+    # is therefore computed on the pointer-free tree (node sort keys print resolved and unresolved references
+    # differently).  Serialising the very same object again must give the same bytes.
+    b0 = pu.Serialize(ast)
+    if pu.Serialize(ast) != b0:
+      return "serialising the same AST object twice gives different bytes"
     pre = ast
     if pre.name.endswith(".__init__"):
       pre = pre.Visit(R.visitors.RenameModuleVisitor(pre.name, pre.name.rsplit(".__init__", 1)[0]))
@@ -569,7 +577,7 @@ def ast_oracle(R, ast):
     canon2 = R.pytd_utils.CanonicalOrdering(canon)
     if not R.pytd_utils.ASTeq(canon2, canon) or val_noptr(R, canon2) != val_noptr(R, canon):
       return "CanonicalOrdering is not idempotent on this AST"
-    b = pu.Serialize(ast)
+    b = b0
     d = pu.DecodeAst(b)
   except Exception as e:  # pylint: disable=broad-except
     return "Serialize/DecodeAst raised %s: %s" % (type(e).__name__, str(e)[:200])
@@ -751,6 +759,25 @@ def build_asts(R, rng, tier, gen, res, crashes):
         crash("parser.parse_string", "pytype/stubs/builtins/" + s, e)
       else:
         res.cov.setdefault("stub_parse_errors", []).append("%s: %s" % (s, str(e)[:100]))
+  # hand-written stubs prepared for export (SourceToExportableAst = what pytype does with a .pyi it is given): local
+  # classes are resolved, typing classes are not, so the tree is in a mixed resolution state; unions of same-base
+  # generics whose parameters are a local class in one member and a typing class in the other; module names that sort
+  # before and after `builtins` / `typing`
+  HAND_STUB = (
+      "from typing import Callable, Dict, Hashable, Iterable, List, Optional, Sized, Tuple, Union\n"
+      "class Local:\n    v: int\n    def key(self) -> Hashable: ...\n"
+      "def a(x: Union[Tuple[Local, int], Tuple[Hashable, int, str]]) -> "
+      "Union[Callable[[Local], int], Callable[[Sized, int], str]]: ...\n"
+      "def b(x: Union[List[Local], List[Hashable]], y: Union[Dict[str, Local], Dict[str, Iterable[int]]]) -> "
+      "Optional[Local]: ...\n"
+      "def c(k: Union[Local, Hashable]) -> Union[Tuple[Hashable, int], Tuple[Local, int, str]]: ...\n"
+      "z: Union[Callable[[int], Local], Callable[[int, str], Hashable]]\n")
+  if loader is not None:
+    for mod in ("aaa", "pkg.mod", "utils", "zzz.views"):
+      try:
+        asts.append(("hand-stub-exportable:" + mod, R.serialize_ast.SourceToExportableAst(mod, HAND_STUB, loader), None))
+      except Exception as e:  # pylint: disable=broad-except
+        crash("serialize_ast.SourceToExportableAst", "hand stub as module " + mod, e)
   # export-dialect units with module aliases and LateTypes at every depth below an aliased prefix (hand-built: the
   # sandbox cannot import third modules, so pytype itself never emits these here)
   try:
@@ -1097,8 +1124,35 @@ def correspond_eqhash(res, rng, tier, R, drv, gen, disagreements):
         n_bad += 1
         if n_bad <= 8:
           disagreements.append({"kind": "eqhash", "what": bad, "a": repr(a)[:300], "b": repr(b)[:300], "pair": [i, j]})
+  # resolved nodes (ClassType.cls filled in, as after load_pytd resolution): the model compares ClassType by name only,
+  # so == on resolved nodes must equal == on their pointer-free copies, and the hash law must hold for them too
+  p = R.pytd
+  mk = lambda nm: p.Class(name=nm, keywords=(), bases=(), methods=(), constants=(), classes=(), decorators=(),
+                          slots=None, template=())
+  k1, k2 = mk("builtins.str"), mk("other.str")
+  def ct(nm, c=None):
+    t = p.ClassType(nm)
+    t.cls = c
+    return t
+  L = lambda t: p.GenericType(ct("builtins.list"), (t,))
+  U = lambda t: p.UnionType((t, p.NamedType("int")))
+  base = [("builtins.str", k1), ("typing.Text", k1), ("builtins.str", k2), ("builtins.str", None), ("typing.Text", None)]
+  resolved = [(f(ct(nm, c)), f(ct(nm))) for nm, c in base for f in (lambda t: t, L, U)]
+  for i, (a, a0) in enumerate(resolved):
+    for j, (b, b0) in enumerate(resolved):
+      re_, r0 = bool(a == b), bool(a0 == b0)
+      bad = None
+      if re_ != r0:
+        bad = "== on resolved nodes (%s) differs from == on their pointer-free copies (%s)" % (re_, r0)
+      elif re_ and (hash(a) != hash(b) or len({a, b}) != 1):
+        bad = "real law broken on resolved nodes: a == b but hash differs / set keeps both"
+      if bad:
+        n_bad += 1
+        if n_bad <= 8:
+          disagreements.append({"kind": "eqhash", "what": bad, "a": repr(a)[:300], "b": repr(b)[:300],
+                                "pair": ["resolved", i, j]})
   EQPOOL[:] = pool
-  return {"pool": n, "pairs": n * n, "real_equal_pairs": n_eq, "off_diagonal_equal_pairs": n_eq - n,
+  return {"pool": n, "pairs": n * n, "resolved_pairs": len(resolved) ** 2, "real_equal_pairs": n_eq, "off_diagonal_equal_pairs": n_eq - n,
           "distinct_classes": len(set(cls)), "accidental_hash_collisions": accidental,
           "accidental_samples (CPython int hash: hash(-1)==hash(-2), hash(2**61-1)==hash(0))": acc_samples,
           "mismatches": n_bad,
